@@ -99,6 +99,26 @@ Arguments slice {A} l a b.
 Arguments batches_fuel {A} fuel idx n bs bstart bend.
 Arguments minibatches {A} idx n bs.
 
+(* ------------------------------------------------------------------ drivers for the GENERATED loop fragments *)
+(* A `while cond: body` loop whose body emits one value per iteration, with fuel (None = still
+   running).  gen/Gen_C20.v instantiates it with the index arithmetic tools/props/t_C20.py extracts
+   from the _train_* functions: state = (batch_start, batch_end), emitted value = the bounds of
+   the slice idx[batch_start:batch_end] taken in that iteration. *)
+Fixpoint while_fuel {St Out : Type} (cond : St -> bool) (body : St -> Out * St) (fuel : nat) (st : St) : option (list Out) :=
+  match fuel with
+  | O => None
+  | S fuel' =>
+      if cond st then
+        let '(o, st') := body st in
+        match while_fuel cond body fuel' st' with Some r => Some (o :: r) | None => None end
+      else Some []
+  end.
+
+Definition slices_of {A} (idx : list A) (bounds : list (nat * nat)) : list (list A) :=
+  map (fun ab => slice idx (fst ab) (snd ab)) bounds.
+
+Definition option_map' {B C} (f : B -> C) (o : option B) : option C := match o with Some x => Some (f x) | None => None end.
+
 (* ------------------------------------------------------------------ calls seen by a spying approximator *)
 Inductive call :=
 | CLossBatch (pts : list nat)     (* calculate_loss on a mini-batch: the training-point indices *)
@@ -112,6 +132,11 @@ Definition epoch_calls (idx : list nat) (n bs : nat) : option (list call) :=
   | Some bsl => Some (map CLossBatch bsl ++ [CLossTrainAll; CMetricsTrainAll; CLossValid; CMetricsValid])
   | None => None
   end.
+
+(* one history append of the epoch loop, as extracted from the source *)
+Inductive hop :=
+| HLoss (key : string) (training : bool)          (* history[key].append(<loss of that phase>) *)
+| HMetrics (prefix : string) (training : bool).   (* for name, v in <metrics of that phase>.items(): history[prefix + name].append(v) *)
 
 (* ------------------------------------------------------------------ history loop of _solve_spatial_temporal *)
 (* history is a Python dict: insertion-ordered association list; values are identified by an
@@ -173,6 +198,35 @@ Section History.
 
   Definition solve (metrics : list string) (max_epochs : nat) : option history :=
     solve_from metrics max_epochs 0 (h_init metrics).
+
+  (* ---- the same loop driven by the operation lists tools/props/t_C20.py extracts from
+     _solve_spatial_temporal: which keys the dictionary starts with, and, per epoch and in source
+     order, which series receives the loss / the metrics of which phase (true = training) *)
+  Definition gen_h_init (keys prefixes : list string) (metrics : list string) : history :=
+    fold_left (fun h m => fold_left (fun h' pre => h_set h' (pre ++ m) []) prefixes h) metrics (map (fun k => (k, [])) keys).
+
+  Fixpoint gen_epoch_update (ops : list hop) (metrics : list string) (e : nat) (h : history) : option history :=
+    match ops with
+    | [] => Some h
+    | HLoss k tr :: r =>
+        match h_append h k (if tr then train_loss e else valid_loss e) with
+        | Some h' => gen_epoch_update r metrics e h' | None => None end
+    | HMetrics pre tr :: r =>
+        match h_append_all h pre (map (fun m => (m, (if tr then train_metric else valid_metric) e m)) metrics) with
+        | Some h' => gen_epoch_update r metrics e h' | None => None end
+    end.
+
+  Fixpoint gen_solve_from (ops : list hop) (metrics : list string) (k e0 : nat) (h : history) : option history :=
+    match k with
+    | O => Some h
+    | S k' => match gen_epoch_update ops metrics e0 h with
+              | Some h' => gen_solve_from ops metrics k' (S e0) h'
+              | None => None
+              end
+    end.
+
+  Definition gen_solve (keys prefixes : list string) (ops : list hop) (metrics : list string) (max_epochs : nat) : option history :=
+    gen_solve_from ops metrics max_epochs 0 (gen_h_init keys prefixes metrics).
 End History.
 Arguments h_set {V} h k v.
 Arguments h_append {V} h k x.
@@ -180,3 +234,7 @@ Arguments h_init {V} metrics.
 Arguments solve {V} train_loss valid_loss train_metric valid_metric metrics max_epochs.
 Arguments solve_from {V} train_loss valid_loss train_metric valid_metric metrics k e0 h.
 Arguments epoch_update {V} train_loss valid_loss train_metric valid_metric metrics e h.
+Arguments gen_h_init {V} keys prefixes metrics.
+Arguments gen_epoch_update {V} train_loss valid_loss train_metric valid_metric ops metrics e h.
+Arguments gen_solve_from {V} train_loss valid_loss train_metric valid_metric ops metrics k e0 h.
+Arguments gen_solve {V} train_loss valid_loss train_metric valid_metric keys prefixes ops metrics max_epochs.
